@@ -1031,3 +1031,45 @@ Proof.
   destruct (maybe_commit_pres rw _ _ _ Hx0 Ha) as [H1 _].
   destruct b; [apply bcast_append_log in H; eapply LI_same; eassumption|inversion H; subst; exact H1].
 Qed.
+
+(* ---------------- Raft::new ---------------- *)
+Theorem raft_new_pres c st sa dr r :
+  raft_new c st sa dr = Ok (inr r) -> SInv st -> trig_log st = false ->
+  LI true r /\ (c_applied c = 0 -> LI false r) /\ store (r_log r) = st.
+Proof.
+  unfold raft_new. intros H Hs Hq.
+  destruct (negb (cfg_validate c)); [discriminate|].
+  destruct (log_new_ok st (c_max_apply_unpersisted_log_limit c) Hs Hq) as (l & Hl & Hr & _).
+  rewrite Hl in H. cbn [bind] in H.
+  assert (Hst : store l = st).
+  { unfold log_new in Hl. inv_bind Hl. destruct (x =? 0); [discriminate|]. inversion Hl; reflexivity. }
+  destruct (ConfChange.restore empty_tracker (cs st)) as [[c' ids']|e]; [|discriminate].
+  rewrite post_conf_change_nonleader in H by reflexivity. cbn [bind] in H.
+  match type of H with (if ?c then _ else _) = _ => destruct c end; [discriminate|].
+  inv_bind H. inv_bind H. inv_bind H. inv_bind H. inversion H; subst r. clear H Hx2.
+  (* load_state *)
+  assert (H3 : LI false x /\ is_leader x = false /\ store (r_log x) = st).
+  { destruct (hs_eqb (hs st) hs_default).
+    - inversion Hx; subst x. split; [exact Hr|]. split; [reflexivity|exact Hst].
+    - split; [eapply load_state_pres; [exact Hx|exact Hr]|].
+      unfold load_state in Hx.
+      match type of Hx with (if ?c then _ else _) = _ => destruct c end; [discriminate|].
+      inversion Hx; subst x. split; [reflexivity|exact Hst]. }
+  destruct H3 as (H3 & Hl3 & Hs3).
+  (* commit_apply_internal, unchecked *)
+  assert (H4 : LI true x0 /\ (c_applied c = 0 -> LI false x0) /\ store (r_log x0) = st).
+  { destruct (0 <? c_applied c) eqn:E.
+    - split; [eapply commit_apply_internal_unchecked_pres; eassumption|].
+      split; [intros; lia|].
+      unfold commit_apply_internal in Hx0. cbn [negb] in Hx0.
+      destruct (c_applied c =? 0); [discriminate|]. cbn [bind] in Hx0.
+      change (is_leader (x <| r_log := applied_to_unchecked (r_log x) (c_applied c) |>))
+        with (is_leader x) in Hx0.
+      rewrite Hl3, andb_false_r in Hx0. inversion Hx0; subst x0. exact Hs3.
+    - inversion Hx0; subst x0. split; [apply (RepInv_true false); exact H3|]. split; [intros _; exact H3|exact Hs3]. }
+  destruct H4 as (H4 & H4' & Hs4).
+  pose proof (become_follower_log _ _ _ _ Hx1) as E5.
+  split; [exact (proj1 (become_follower_pres true _ _ _ _ Hx1 H4))|].
+  split; [intros Ha; exact (proj1 (become_follower_pres false _ _ _ _ Hx1 (H4' Ha)))|].
+  rewrite E5. exact Hs4.
+Qed.
